@@ -474,20 +474,23 @@ impl<'g, T> CallDriver<'g, T> {
             Drop,
         }
         let mut acts: Vec<Act> = Vec::with_capacity(5);
-        if !held.is_empty() {
-            acts.push(Act::Release);
-        }
-        if self.batch && held.len() >= 2 {
+        if self.batch && held.len() >= 2 && tape.coin(1, 4) {
+            // bulk completion between two polls: all, half, a quarter or a random number of the
+            // held futures, starting at a random one
             acts.push(Act::ReleaseAll);
-        }
-        if can_signal {
-            acts.push(Act::Signal);
-        }
-        if can_spur {
-            acts.push(Act::Spur);
-        }
-        if can_drop {
-            acts.push(Act::Drop);
+        } else {
+            if !held.is_empty() {
+                acts.push(Act::Release);
+            }
+            if can_signal {
+                acts.push(Act::Signal);
+            }
+            if can_spur {
+                acts.push(Act::Spur);
+            }
+            if can_drop {
+                acts.push(Act::Drop);
+            }
         }
         match acts[tape.choose(acts.len())] {
             Act::Release => {
@@ -510,15 +513,23 @@ impl<'g, T> CallDriver<'g, T> {
                 self.need_poll = true;
             }
             Act::ReleaseAll => {
-                // every held future completes between two polls
-                let first = held[0];
+                let len = held.len();
+                let k = match tape.choose(4) {
+                    0 => len,
+                    1 => (len / 2).max(1),
+                    2 => (len / 4).max(1),
+                    _ => 1 + tape.choose(len),
+                }
+                .min(len);
+                let off = tape.choose(len);
+                let first = held[off];
                 let f = self.sh.borrow().insts[first].f;
                 if !self.release(first) {
                     self.finish(Term::LostWake(f));
                     return;
                 }
-                for &k in &held[1..] {
-                    self.release(k);
+                for i in 1..k {
+                    self.release(held[(off + i) % len]);
                 }
                 self.need_poll = true;
             }
@@ -738,22 +749,24 @@ impl<'g> StreamDriver<'g> {
             return;
         }
         let mut acts: Vec<Act> = Vec::with_capacity(6);
-        if can_poll {
-            acts.push(Act::Poll);
-        }
-        if nheld > 0 {
-            acts.push(Act::DropOne);
-        }
-        if self.batch && nheld >= 2 {
+        let bulk = self.batch && nheld >= 2 && tape.coin(if self.greedy { 1 } else { 1 }, if self.greedy { 2 } else { 4 });
+        if bulk {
             acts.push(Act::DropAll);
+        } else {
+            if can_poll {
+                acts.push(Act::Poll);
+            }
+            if nheld > 0 {
+                acts.push(Act::DropOne);
+            }
         }
-        if can_spur {
+        if can_spur && !bulk {
             acts.push(Act::Spur);
         }
-        if can_drop {
+        if can_drop && !bulk {
             acts.push(Act::DropStream);
         }
-        if can_signal {
+        if can_signal && !bulk {
             acts.push(Act::Signal);
         }
         let _ = nopt;
@@ -773,9 +786,21 @@ impl<'g> StreamDriver<'g> {
                 }
             }
             Act::DropAll => {
-                // bulk drop: every outstanding FnRef goes between two polls, in a tape-chosen direction
+                // bulk drop between two polls: all, half, a quarter or a random number of the
+                // outstanding FnRefs, from the front or from the back
+                let len = self.held.len();
+                let k = match tape.choose(4) {
+                    0 => len,
+                    1 => (len / 2).max(1),
+                    2 => (len / 4).max(1),
+                    _ => 1 + tape.choose(len),
+                }
+                .min(len);
                 let rev = tape.coin(1, 2);
-                while !self.held.is_empty() && self.term.is_none() {
+                for _ in 0..k {
+                    if self.held.is_empty() || self.term.is_some() {
+                        break;
+                    }
                     let i = if rev { self.held.len() - 1 } else { 0 };
                     self.drop_ref(i);
                 }
